@@ -267,7 +267,7 @@ theorem C20_wrong_kind_channel (s : Store) (x : Nat) (S : List Nat) :
     never fails (the arithmetic of `partition_max_size = n / k + 1`) -/
 theorem C20_equal_size_no_panic (s : Store) (h : s.wf = true) (k : Nat) (hk : 0 < k) :
     (s.bfsEqualSizePartitions k).isPanic = false := by
-  exact NP.bfsEqualSizePartitions_noPanic s (NP.wf_parts' h).1 k hk
+  exact NP.bfsEqualSizePartitions_noPanic s (NP.wf_parts' h).1 (NP.wf_parts' h).2.2.2 k hk
 
 /-- non-vacuity: the sweep's own empty and single-node graphs satisfy the invariant -/
 example : (Store.new ⟨true, true, true, .error, .create, .drop⟩).wf = true ∧
